@@ -44,6 +44,10 @@ func (its *Manager) GetLatestDatatype() (iface.Datatype, uint64, errors.OrdaErro
 	}
 
 	datatype.SetDUID(its.datatypeDoc.DUID)
+	// The datatype exists already: the rebuilt replica's own creation operation must never be pushed.
+	// (Without a stored snapshot the buffer was not reset, and a REST patch then appended the replica's
+	// creation snapshot to the middle of the log, which resets every subscriber to an empty document.)
+	datatype.ResetWired()
 
 	snapshotDoc, err := its.managers.Mongo.GetLatestSnapshot(its.ctx, its.datatypeDoc.CollectionNum, its.datatypeDoc.DUID)
 	if err != nil {
